@@ -242,6 +242,31 @@ Definition tr_checkActive (c_failCount : Z) (c_lastFailCount : Z) (c_status : bo
     (fun c_lastBlockTime : Z => 
     Return (false, false, c_status, c_lastBlockTime))).
 
+(* struct github.com/TarsCloud/TarsGo/tars/selector.pair *)
+Record go_selector_pair := { go_selector_pair_first : Z;
+  go_selector_pair_second : Z }.
+
+(* tars/selector/selector.go: func BuildStaticWeightList, statements "var weightToId []pair" .. "for idx, node := range endpoints {" *)
+Definition tr_BSWL_scale (endpoints : (list go_endpoint_Endpoint)) (maxRange : Z) (totalWeight : Z) (maxWeight : Z) : ctl (Z * (list go_selector_pair) * (list (Z * Z)) * (list Z)) (list Z) :=
+  let weightToId : (list go_selector_pair) := (@nil go_selector_pair) in
+    let idToWeight := (@nil (Z * Z)) in
+    if (andb (0 <=? 0) (0 <=? (go_len endpoints))) then (let staticWeightRouterCache := (go_make 0 0) in
+    bindc (go_range endpoints (fun (idx : Z) (node : go_endpoint_Endpoint) => fun st : Z * (list go_selector_pair) * (list (Z * Z)) * (list Z) => let '(totalWeight, weightToId, idToWeight, staticWeightRouterCache) := st in 
+      if (negb (maxWeight =? 0)) then (let weight := (wrapS 64 (Z.quot (wrapS 64 ((go_endpoint_Endpoint_Weight node) * maxRange)) maxWeight)) in
+      bindc (if (0 <? weight)
+        then let totalWeight := (wrapS 64 (totalWeight + weight)) in
+          let idToWeight := (go_map_set idToWeight idx weight) in
+          let weightToId := weightToId ++ [{|
+      go_selector_pair_first := weight;
+      go_selector_pair_second := idx |}] in
+          Next (totalWeight, weightToId, idToWeight, staticWeightRouterCache)
+        else let staticWeightRouterCache := staticWeightRouterCache ++ [idx] in
+          Next (totalWeight, weightToId, idToWeight, staticWeightRouterCache))
+      (fun st : Z * (list go_selector_pair) * (list (Z * Z)) * (list Z) => let '(totalWeight, weightToId, idToWeight, staticWeightRouterCache) := st in 
+      Next (totalWeight, weightToId, idToWeight, staticWeightRouterCache))) else Panic) (totalWeight, weightToId, idToWeight, staticWeightRouterCache))
+    (fun st : Z * (list go_selector_pair) * (list (Z * Z)) * (list Z) => let '(totalWeight, weightToId, idToWeight, staticWeightRouterCache) := st in 
+    Next (totalWeight, weightToId, idToWeight, staticWeightRouterCache))) else Panic.
+
 (* tars/util/endpoint/parse.go: func Parse, statements "isTcp := int32(0)" .. "e := Endpoint{" *)
 Definition tr_Parse_build (proto : (list N)) (host : (list N)) (bind : (list N)) (port : Z) (timeout : Z) (grid : Z) (qos : Z) (weight : Z) (weightType : Z) (authType : Z) : ctl go_endpoint_Endpoint go_endpoint_Endpoint :=
   let isTcp := 0 in
